@@ -350,7 +350,7 @@ class TT():
                 tfull = tn.einsum('...i,ij->...j', tfull,
                                   self.cores[-1][:, :, 0])
             else:
-                tfull = tn.squeeze(tfull)
+                tfull = tfull[:, 0]
         return tfull
 
     def numpy(self):
